@@ -635,7 +635,7 @@ func runRLPDiff() {
 				rlpCompare(rlpTargets[rng.Intn(len(rlpTargets))], in, c)
 			}
 			rlpRawCompare(in, c)
-			if i < 4 {
+			if i < 2 {
 				run.Sample(map[string]interface{}{"monitor": "rlp-ref", "target": home.name, "input_hex": fmt.Sprintf("%X", in), "non_canonical": f.used, "accepted": ok})
 			}
 			run.Nontrivial("rlp:" + lib.Hash12(in))
